@@ -138,7 +138,7 @@ def coq_dep_closure(vfiles):
             continue
         seen.add(f)
         src = open(os.path.join(COQ, f)).read()
-        for m in re.finditer(r"From\s+CV\s+Require\s+(?:Import|Export)?\s*([^.]*(?:\.[A-Za-z_][^.\s]*)*)\.\s", src):
+        for m in re.finditer(r"From\s+CV\s+Require\s+(?:Import|Export)?\s*([A-Za-z0-9_.'\s]+?)\.(?=\s)", src):
             for mod in m.group(1).split():
                 todo.append(mod.replace(".", "/") + ".v")
     return sorted(seen)
@@ -213,6 +213,24 @@ def print_assumptions(vfile, deps_built=True, timeout=600):
         b = blocks[i] if i < len(blocks) else "?"
         res[n] = b if isinstance(b, str) else " ".join(x.strip() for x in b)
     return rc == 0, res, out
+
+
+def coqchk(vfiles, timeout=3000):
+    """Independent re-check (coqchk -o) of the compiled property files and everything they depend on.
+    Returns (ok, summary dict, raw tail)."""
+    mods = ["CV." + f[:-2].replace("/", ".") for f in vfiles]
+    with Lock("coq"):
+        rc, out = sh(["coqchk", "-silent", "-o", "-Q", ".", "CV"] + mods, cwd=COQ, timeout=timeout)
+    summ = {}
+    cur = None
+    for line in out.split("\n"):
+        m = re.match(r"\* ([^:]+):\s*(.*)", line.strip())
+        if m:
+            cur = m.group(1)
+            summ[cur] = m.group(2).strip()
+        elif cur and line.strip() and not line.startswith("CONTEXT") and not line.startswith("==="):
+            summ[cur] = (summ[cur] + " " + line.strip()).strip()
+    return rc == 0, summ, out[-1500:]
 
 
 # ------------------------------------------------------------------ OCaml / Go
@@ -493,6 +511,14 @@ def standard_check(cfg, tier, seed, replay=None):
         res.violation(rp, "no-failing-input-found")
     if hasattr(cfg, "post"):
         cfg.post(res, stats_all, all_mism)
+    chk = None
+    if tier == "thorough" and ok and cfg.PROPS_FILES and not getattr(cfg, "NO_COQCHK", False):
+        okc, summ, tail = coqchk(cfg.PROPS_FILES)
+        chk = {"ok": okc, "summary": summ}
+        bad_keys = [k for k, v in summ.items() if k != "Theory" and v not in ("<none>", "")]
+        if not okc or bad_keys:
+            rp = write_replay(pid, seed, "coqchk", "# coqchk did not accept the compiled development cleanly:\n# " + tail.replace("\n", "\n# ") + "\n")
+            res.violation(rp, "no-failing-input-found")
 
     res.cov = {
         "obligations": len(obligations) + len(extra_obl),
@@ -511,6 +537,7 @@ def standard_check(cfg, tier, seed, replay=None):
         "rule": "; ".join(sorted(set(s.get("rule", "") for s in stats_all.values()))),
         "samples": samples[:8] if samples else ["(no correspondence cases this run)"],
         "input_distribution": {k: {"kinds": s.get("kinds"), "classes": s.get("classes")} for k, s in stats_all.items()},
+        "coqchk": chk if chk is not None else "not run in this tier (thorough only)",
         "explanation": getattr(cfg, "EXPLANATION", ""),
         "modelled_not_verified": list(getattr(cfg, "MODELLED", [])),
     }
